@@ -381,6 +381,23 @@ impl<'a, 'b> Gen<'a, 'b> {
             };
             return E::Field(Box::new(E::Sym(n)), sel);
         }
+        if self.t.chance(1, 4) {
+            // tuples with different field sets behind a list or a select; the field is
+            // taken from the one that has it
+            self.mark("heterogeneous-tuples");
+            let k = FIELDS[self.t.choice(FIELDS.len())].to_string();
+            let other = FIELDS[(self.t.choice(FIELDS.len() - 1) + 1 + FIELDS.iter().position(|f| *f == k).unwrap()) % FIELDS.len()].to_string();
+            let oty = self.gen_type(2);
+            let with = E::Tuple(vec![(other.clone(), self.expr(&oty, depth + 2)), (k.clone(), self.expr(ty, depth + 1))]);
+            let without = E::Tuple(vec![(other.clone(), self.expr(&oty, depth + 2))]);
+            return if self.t.chance(1, 2) {
+                let (items, idx) = if self.t.chance(1, 2) { (vec![without, with], 1) } else { (vec![with, without], 0) };
+                E::Field(Box::new(E::Field(Box::new(E::List(items)), Sel::Index(idx))), Sel::Name(k))
+            } else {
+                let sel = E::Select { val: Box::new(E::Str("x".into())), default: Some(Box::new(without)), arms: vec![("x".into(), with)] };
+                E::Field(Box::new(sel), Sel::Name(k))
+            };
+        }
         // a literal tuple with the field
         let k = FIELDS[self.t.choice(FIELDS.len())].to_string();
         let mut fs = vec![(k.clone(), self.expr(ty, depth + 1))];
